@@ -185,12 +185,9 @@ func compareSnap(res *runner.Result, s *wire.Snap, exp map[string]*expDBI, wit m
 		for k, ev := range e.Entries {
 			gv, has := got[k]
 			want := ev
-			if want.Del {
-				// a deleted entry is exported as deleted; the value a foreign writer may have left behind is not judged
-				if has && gv.Del && gv.TS == want.TS {
-					continue
-				}
-			}
+			// a deleted-flag entry is judged like any other: the statement asks for exactly the stored application
+			// value of "live entries, empty values and deletion markers alike" over contents with any flags, so bytes
+			// a native writer left behind a deleted-flag header belong to the image (seed C06i dropped them)
 			if !has {
 				res.Violate("entry-missing-in-snapshot", fmt.Sprintf("%s: %s[%x] = %v is in the LMDB but not in the snapshot", what, d.Name, head([]byte(k), 40), ev), wit)
 				ok = false
@@ -286,6 +283,7 @@ func runStatic(p c06Params, env *runner.Env, res *runner.Result, label string) {
 	}
 	defer x.Close()
 	markersOrEmpty := 0
+	markersWithValue := 0
 	_, err = lmdbx.Update(x.Env, func(txn *lmdb.Txn) error {
 		for di := 0; di < p.NDBI; di++ {
 			name := fmt.Sprintf("d%d", di)
@@ -335,7 +333,14 @@ func runStatic(p c06Params, env *runner.Env, res *runner.Result, label string) {
 					ts := rng.Pick(r, uint64(0), 1, r.U64(), uint64(time.Now().UnixNano()))
 					ext := r.Bytes(8 * rng.Pick(r, 0, 0, 0, 1, 2, 3))
 					if fl&1 != 0 {
-						val = nil
+						// Lightning Stream's own markers have no value; a native application
+						// may keep bytes behind a deleted-flag header (the schema allows it, the
+						// image has to carry them unchanged)
+						if r.Chance(1, 2) {
+							val = nil
+						} else if len(val) > 0 {
+							markersWithValue++
+						}
 						markersOrEmpty++
 					} else if vl == 0 {
 						markersOrEmpty++
@@ -487,7 +492,8 @@ func runStatic(p c06Params, env *runner.Env, res *runner.Result, label string) {
 		}
 	}
 	res.NonTrivial = p.NDBI >= 2 && markersOrEmpty > 0
-	res.Sample = map[string]any{"case": label, "params": p, "markers_or_empty": markersOrEmpty}
+	res.Count("deleted_flag_entries_with_value", int64(markersWithValue))
+	res.Sample = map[string]any{"case": label, "params": p, "markers_or_empty": markersOrEmpty, "markers_with_value": markersWithValue}
 }
 
 // countCtx is a context that is cancelled from its n-th inspection (Done or Err call) on.
